@@ -33,12 +33,26 @@
 
    Class chosen for data values: ASCII strings (what the harness's session
    histories store). On it JSON's conversions are the identity; the theorems
-   at the end say what happens outside it. *)
+   at the end say what happens outside it. User IDs likewise are embedded as
+   strings only: integer user IDs, which C16 names, are NOT covered by the
+   bridge - gob hands LoadUser the int, JSON hands it a float64
+   (C09B_json_int_user_refuted, C09B_json_int_user_needs_float_loader). *)
 From Sessions Require Import Model.Base Model.Codec Model.JsonLib Model.Rfc3339 Model.GobWire Model.CodecBridge
   Gen.Layout Proofs.CodecDefs Proofs.CodecLaws2 Proofs.CodecBridge Proofs.CodecBridge2 Proofs.CodecBridge3
   Proofs.CodecBridge4 Proofs.CodecBridgeEx.
 From Sessions Require Model.Sess.
 Local Open Scope N_scope.
+
+(* ------------------------------------------ the premise of the JSON theorems *)
+
+(* json_da_null_ok = true is a premise of every JSON theorem below. It is a
+   closed boolean over the table regenerated from session.go, and on the tree
+   checked it is true - an obligation, so that a tree in which the repair of
+   D3 is reverted fails here (and in the examples of Proofs/CodecBridgeEx.v)
+   instead of making the JSON theorems vacuous. checks/codec_bridge.py also
+   records its value (Model/CodecBridge.v: da_null_ok_now, the same term). *)
+Theorem C09B_json_da_null_ok_now : json_da_null_ok = true /\ da_null_ok_now = json_da_null_ok.
+Proof. exact (conj json_da_null_ok_now da_null_ok_now_eq). Qed.
 
 (* ------------------------------------------------------------ the embedding *)
 
@@ -243,6 +257,40 @@ Theorem C09B_json_utf8_refuted :
              cs_data j = Some [(dec 1, DStr [239; 191; 189])] /\ cs_data j <> cs_data ex_bad_utf8_sess).
 Proof. exact bridge_json_utf8_refuted. Qed.
 
+(* Integer user IDs - the kind C16 names - are outside the bridge (which
+   embeds user IDs as strings). Witness through the byte-level instances: the
+   session of ex_rec logged in as the user with the Go int 7 as ID. gob hands
+   LoadUser the int 7 and the loader that knows exactly DInt 7 (int7_load)
+   finds the user; JSON hands LoadUser the float64 7.0, so the same loader
+   fails and the record cannot be read back, and a loader accepting anything
+   (echo_load) attaches a user whose ID is the float, not the int. *)
+Theorem C09B_json_int_user_refuted :
+  json_dom ex_int_user_sess = true /\ sess_num_wf ex_int_user_sess = true /\
+  (exists g, decode_encode_with int7_load (ex_cfg false) ex_int_user_sess = Ok g /\
+             cs_user g = Some (mkUser (DInt 7) 0)) /\
+  decode_encode_with int7_load (ex_cfg true) ex_int_user_sess = Err /\
+  (exists j, decode_encode_with echo_load (ex_cfg true) ex_int_user_sess = Ok j /\
+             cs_user j = Some (mkUser (DFloat (f64_of_Z 7)) 0) /\
+             DFloat (f64_of_Z 7) <> DInt 7 /\ proj_rec j = None).
+Proof. exact bridge_json_int_user_refuted. Qed.
+
+(* In general (any session, any library satisfying C17's hypotheses): an int
+   user ID z reaches LoadUser as float64(z); a loader that does not know the
+   float makes UnmarshalJSON fail. *)
+Theorem C09B_json_int_user_needs_float_loader :
+  forall load fmt_time parse_time jstr (s : csess) (z : Z) (tag : N),
+    json_da_null_ok = true -> json_lib_ok fmt_time parse_time jstr -> json_dom s = true ->
+    cs_user s = Some (mkUser (DInt z) tag) ->
+    load (DFloat (f64_of_Z z)) = None ->
+    json_roundtrip load fmt_time parse_time jstr json_enc json_dec s = Err.
+Proof. exact json_int_user_reaches_loader_as_float. Qed.
+
+(* decode_encode is decode_encode_with for Sess.codec's LoadUser *)
+Theorem C09B_decode_encode_with_bridge :
+  forall (c : Sess.cfg) (s : csess), decode_encode_with bridge_load c s = decode_encode c s.
+Proof. exact decode_encode_with_bridge. Qed.
+
+Print Assumptions C09B_json_da_null_ok_now.
 Print Assumptions C09B_embedding_faithful.
 Print Assumptions C09B_embedding_stable.
 Print Assumptions C09B_gob.
@@ -264,3 +312,6 @@ Print Assumptions C09B_gob_data_kept.
 Print Assumptions C09B_json_int_becomes_float.
 Print Assumptions C09B_json_int_refuted.
 Print Assumptions C09B_json_utf8_refuted.
+Print Assumptions C09B_json_int_user_refuted.
+Print Assumptions C09B_json_int_user_needs_float_loader.
+Print Assumptions C09B_decode_encode_with_bridge.
